@@ -86,7 +86,16 @@ def gen_numeric_table(rng, big=True):
             else:
                 rec.append(rng.choice(INTS) if r < nrows // 2 or rng.random() < 0.3 else rng.choice(FLOATS))
         A.append(rec)
+    if big and A and rng.random() < 0.04:
+        # one cell that only STARTS like a number (or holds two): not a number in either host language - a numeric aggregate over it fails the query
+        # (in a column of numeric STRINGS: the engine decides by the first value of a column whether it has to convert at all)
+        scols = [j for j, kd in enumerate(kinds) if not kd.startswith('n')]
+        if scols:
+            A[rng.randrange(len(A))][nkeys + rng.choice(scols)] = rng.choice(NOT_NUMBERS)
     return A, nkeys, nvals
+
+
+NOT_NUMBERS = ['20 apples', '12abc', '1,5', '3.4.5', '2021-03-04', '7-', '5 6', '1e', '-+1', '10%', '$5', '1 000']
 
 
 def gen_case(rng, i, neutral_only=False):
@@ -174,7 +183,7 @@ def gen_case(rng, i, neutral_only=False):
 
 
 def gen_builtin_case(rng):
-    """lower-case min / max / sum with several arguments or an iterable keep their Python builtin meaning (non-aggregate query)."""
+    """lower-case min / max / sum with several arguments or an iterable keep their Python builtin meaning (in non-aggregate and in aggregate queries)."""
     # no integers beyond 2**53 here: the operands are converted with float() and summed in an order that a set does not fix
     A, nkeys, nvals = gen_numeric_table(rng, big=False)
     while not A:
@@ -189,9 +198,19 @@ def gen_builtin_case(rng):
         form = rng.choice(['gen', 'map', 'tuple', 'iter', 'set', 'reversed', 'dictkeys', 'filter', 'zip'])
         xs = [f(vj), f(other), ['NR']][:rng.choice([1, 2, 3])] if form != 'filter' else [f(vj), ['NR'], ['int', 5]]
         return ['pybuiltin', rng.choice(['max', 'min', 'sum']), form, xs]
-    items = [{'kind': 'expr', 'expr': one()} for _ in range(rng.choice([1, 2]))]
-    items.append({'kind': 'expr', 'expr': ['field', 'a', 0, 'var']})
-    q = {'kind': 'select', 'items': items, 'distinct': None, 'top': None, 'top_kw': 'top', 'where': None, 'join': None, 'order': None, 'group': None, 'except': None, 'assign': [], 'with': None}
+    where = group = None
+    if rng.random() < 0.5:
+        # the builtin call inside an aggregate query: as the argument of an aggregate, in WHERE, beside a GROUP BY key (every record, not only the first)
+        items = [{'kind': 'agg', 'func': fn, 'spelling': fn, 'arg': one()} for fn in rng.sample(['ARRAY_AGG', 'SUM', 'MAX', 'MIN', 'ANY_VALUE', 'COUNT', 'AVG', 'MEDIAN'], rng.choice([1, 2]))]
+        if rng.random() < 0.5:
+            group = [['field', 'a', 0, 'var']]
+            items.append({'kind': 'expr', 'expr': ['field', 'a', 0, 'var']})
+        if rng.random() < 0.4:
+            where = ['cmp', '>', one(), ['int', 1]]
+    else:
+        items = [{'kind': 'expr', 'expr': one()} for _ in range(rng.choice([1, 2]))]
+        items.append({'kind': 'expr', 'expr': ['field', 'a', 0, 'var']})
+    q = {'kind': 'select', 'items': items, 'distinct': None, 'top': None, 'top_kw': 'top', 'where': where, 'join': None, 'order': None, 'group': group, 'except': None, 'assign': [], 'with': None}
     return common.case_json(q, {'A': A, 'B': None, 'a_names': None, 'b_names': None})
 
 
